@@ -200,6 +200,10 @@ func judge(s *Scenario, o *Obs) *verdict {
 		judgeWaiters(s, o, v)
 		return v
 	}
+	if s.D != nil {
+		judgeDrain(s, o, v)
+		return v
+	}
 	top, ok := asList(o.Value)
 	if !ok || len(top) != 3 {
 		v.add("result-shape", "script result is not [sres, rres, post]: %s", show(o.Value))
@@ -555,6 +559,17 @@ func (s *Scenario) hangClass() string {
 	if s.W != nil {
 		return s.W.class()
 	}
+	if s.D != nil {
+		return s.D.class()
+	}
+	if s.Launch > 0 {
+		var parts []string
+		for ch := range s.Chans {
+			parts = append(parts, s.shape(ch))
+		}
+		sort.Strings(parts)
+		return strings.Join(parts, " & ") + fmt.Sprintf(":launcher-depth=%d", s.Launch)
+	}
 	var parts []string
 	for ch := range s.Chans {
 		parts = append(parts, s.shape(ch))
@@ -595,7 +610,7 @@ type planned struct {
 }
 
 func drive(d *mon.Driver, replay string) int {
-	d.Rule = "(senders, receivers, buffer, mode, send styles, receive styles, spawn forms/bindings, GOMAXPROCS, scope) of one channel group is new AND at least two script goroutines provably overlapped in that run (stamped runs: stamps of ≥2 goroutines alternate; unstamped: more messages than buffer slots, or a receiver's list alternates between senders, or two receivers both got values of one sender); shared-thread scenarios: (waiters, forms, way the thread object is passed, gate/work, result kind, GOMAXPROCS) is new and ≥2 waiter goroutines plus the spawner called wait() on the same thread"
+	d.Rule = "(senders, receivers, buffer, mode, send styles, receive styles, spawn forms/bindings, GOMAXPROCS, scope) of one channel group is new AND at least two script goroutines provably overlapped in that run (stamped runs: stamps of ≥2 goroutines alternate; unstamped: more messages than buffer slots, or a receiver's list alternates between senders, or two receivers both got values of one sender); shared-thread scenarios: (waiters, forms, way the thread object is passed, gate/work, result kind, GOMAXPROCS) is new and ≥2 waiter goroutines plus the spawner called wait() on the same thread; drain scenarios: (mode, capacity, senders, receive styles, forms, GOMAXPROCS) is new and ≥2 receivers drained the channel; launcher depth and forms are part of a channel group's key"
 	d.Assume = []string{
 		"script goroutines share only channels and read-only values; every mutable value is private to one goroutine, so any race report concerns interpreter state",
 		"the stamped history is taken in a host builtin with one global atomic counter; the counter itself orders the goroutines, so stamped runs can hide races that the unstamped runs (60 %) expose",
@@ -631,9 +646,15 @@ func drive(d *mon.Driver, replay string) int {
 				plan = append(plan, planned{s: p}, planned{s: p, race: true})
 			}
 		}
+		// a buffered channel closed with values still queued, drained by several receivers
+		rd := d.Rand("drain")
+		for i := 0; i < d.N(22, 1200); i++ {
+			s := genDrainScenario(rd.SplitN(i), i, d.Thorough())
+			plan = append(plan, planned{s: s}, planned{s: s, race: true})
+		}
 		// one thread object waited for by several goroutines at once
 		rw := d.Rand("waiters")
-		for i := 0; i < d.N(48, 2000); i++ {
+		for i := 0; i < d.N(40, 2000); i++ {
 			s := genWaitScenario(rw.SplitN(i), i, d.Thorough())
 			plan = append(plan, planned{s: s}, planned{s: s, race: true})
 		}
@@ -720,6 +741,8 @@ func drive(d *mon.Driver, replay string) int {
 			nmsg = p.s.Chans[0].N
 		} else if p.s.W != nil {
 			nmsg = p.s.W.Rounds
+		} else if p.s.D != nil {
+			nmsg = p.s.D.Rounds
 		}
 		slowest = append(slowest, slowRun{c.ID, o.Ms, p.s.hangClass(), p.s.Procs, nmsg})
 		sort.Slice(slowest, func(i, j int) bool { return slowest[i].Ms > slowest[j].Ms })
@@ -756,6 +779,13 @@ func drive(d *mon.Driver, replay string) int {
 			} else {
 				d.Event("channel_groups_without_overlap", 1)
 			}
+		}
+		if p.s.D != nil && len(p.s.D.Styles) >= 2 {
+			d.Distinct(p.s.D.distinctKey(p.s.Procs))
+			d.Event("drain_scenarios", 1)
+		}
+		if p.s.Launch > 0 {
+			d.Event("launcher_scenarios", 1)
 		}
 		if p.s.W != nil && p.s.W.Waiters >= 2 {
 			// ≥2 waiter goroutines plus the spawner call wait() on one thread whose call ends while they do
